@@ -65,7 +65,7 @@ def run(ck: Check) -> int:
     chunks = K.enumerate_cases(ck.tier, ck.seed)
     ck.bound('chunks', len(chunks))
     ck.bound('elementary_cases', sum(len(c) for c in chunks))
-    ck.bound('keys_per_curve', '4 (BLS 2) quick / 8 (BLS 3) thorough')
+    ck.bound('keys_per_curve', '4 (BLS 2) quick / 8 (BLS 2) thorough')
     results = CC.pmap(K.eval_chunk, chunks)
     seen_viol = {}
     for chunk_res in results:
